@@ -1,12 +1,15 @@
 /-
-  C17 — a tiny imperative semantics with three sources of values that are *not* functions of a
+  C17 — a tiny imperative semantics with four sources of values that are *not* functions of a
   call's arguments:
 
     * `seeded` : the generator obtained from the caller's seed  (`get_rng(seed)`, utils.py:710-729,
                  third branch: `random.Random(seed)`),
     * `global` : the process-global generator                   (`get_rng(None)` returns the
                  `random` module; `random.*`, `np.random.*`),
-    * `hash`   : the per-process string-hash order               (iteration order of a `set` of `str`).
+    * `hash`   : the per-process string-hash order               (iteration order of a `set` of `str`),
+    * `sched`  : the order in which the workers of an executor pool passed as `parallel=` finish
+                 (`concurrent.futures.as_completed`, `wait(.., FIRST_COMPLETED)`, `imap_unordered`);
+                 see `Model/Gather.lean` for what reads it and what does not.
 
   A program is a table of function bodies `FnId → Cmd σ`; bodies are built from arbitrary
   deterministic store transformers, draws from one of the three sources, sequencing, branching,
@@ -22,7 +25,7 @@ namespace Cotengra.Flow
 abbrev FnId := Nat
 
 inductive Src where
-  | seeded | global | hash
+  | seeded | global | hash | sched
 deriving DecidableEq, Repr, Inhabited
 
 /-- A generator: an infinite tape of values and a read position.  A seeded generator is a
@@ -44,12 +47,16 @@ structure Env (σ : Type) where
   seeded : Gen
   global : Gen
   hash : Nat
+  /-- completion orders of the pool's workers, one per gather (a tape like the global generator:
+      nothing is assumed about it) -/
+  sched : Gen
 
 /-- read one value from a source (the hash order is a constant of the process) -/
 def Env.read {σ : Type} (e : Env σ) : Src → Nat × Env σ
   | .seeded => let (v, g) := e.seeded.next; (v, { e with seeded := g })
   | .global => let (v, g) := e.global.next; (v, { e with global := g })
   | .hash => (e.hash, e)
+  | .sched => let (v, g) := e.sched.next; (v, { e with sched := g })
 
 inductive Cmd (σ : Type) where
   /-- any deterministic computation on the store -/
@@ -100,18 +107,19 @@ def Cmd.calls {σ : Type} : Cmd σ → List FnId
 /-! ## fact tables and the decision procedure -/
 
 /-- one row of the source-derived table: callees, "draws from the global generator",
-    "depends on the string-hash order" -/
+    "depends on the string-hash order", "consumes pool results in completion order" -/
 structure Facts where
   calls : List FnId
   rdGlobal : Bool
   rdHash : Bool
+  rdSched : Bool
 deriving Repr, BEq, DecidableEq, Inhabited
 
 /-- rows are addressed by position; an id outside the table is *tainted* (conservative) -/
 def getFacts (T : List Facts) (f : FnId) : Facts :=
   match T[f]? with
   | some x => x
-  | none => { calls := [], rdGlobal := true, rdHash := true }
+  | none => { calls := [], rdGlobal := true, rdHash := true, rdSched := true }
 
 /-- sets of rows are bit masks (`Nat`): membership and insertion are single bit operations, which
     the kernel evaluates with GMP arithmetic -- the closed `decide` obligation over the extracted
@@ -126,7 +134,7 @@ def closedClean (T : List Facts) (R : FSet) : Bool :=
   (List.range T.length).all fun f =>
     !R.testBit f ||
       (let x := getFacts T f
-       !x.rdGlobal && !x.rdHash && x.calls.all fun g => inSet T R g)
+       !x.rdGlobal && !x.rdHash && !x.rdSched && x.calls.all fun g => inSet T R g)
 
 /-- worklist search for the set of rows reachable from the frontier (only its *output* is
     trusted through `closedClean`, so no correctness proof of the search itself is needed) -/
@@ -157,9 +165,74 @@ def members (T : List Facts) (R : FSet) : List FnId := (List.range T.length).fil
 
 /-- tainted rows reachable from `f` (diagnostics for the driver / harness only) -/
 def taintedFrom (T : List Facts) (f : FnId) : List FnId :=
-  (members T (reachFrom T f)).filter fun g => let x := getFacts T g; x.rdGlobal || x.rdHash
+  (members T (reachFrom T f)).filter fun g => let x := getFacts T g; x.rdGlobal || x.rdHash || x.rdSched
 
 end Cotengra.Flow
+
+/-!
+## `get_rng` (cotengra/utils.py:731-750), branch by branch
+
+    if seed is None:                                       return random          # the global module
+    elif isinstance(seed, random.Random) or seed is random: return seed            # the caller's generator
+    else:                                                   return random.Random(seed)
+
+`random.Random(x)` accepts `None`, `int`, `float`, `str`, `bytes`, `bytearray` and raises
+`TypeError` for anything else (a numpy `Generator`, a tuple ...).  A generator *instance* passed as
+the seed is shared, not copied: draws made through the returned object advance the caller's
+generator.
+-/
+namespace Cotengra.GetRng
+open Cotengra.Flow
+
+/-- what is passed as `seed` -/
+inductive SeedArg where
+  | none
+  /-- an integer (or a str / bytes / float: hashed by CPython independently of PYTHONHASHSEED) -/
+  | int (n : Nat)
+  /-- an instance of `random.Random` in state `g` -/
+  | inst (g : Gen)
+  /-- the module `random` itself -/
+  | globalMod
+  /-- an object `random.Random` cannot be seeded with (numpy Generator, tuple, ...) -/
+  | unsupported
+
+/-- which generator the returned object draws from -/
+inductive RngOut where
+  | global
+  | fresh (g : Gen)
+  | shared (g : Gen)
+  | typeError
+
+def getRng (mk : Nat → Nat → Nat) : SeedArg → RngOut
+  | .none => .global
+  | .globalMod => .global
+  | .inst g => .shared g
+  | .int n => .fresh (Gen.ofSeed mk n)
+  | .unsupported => .typeError
+
+/-- draw `n` values from a generator -/
+def drawN : Nat → Gen → List Nat × Gen
+  | 0, g => ([], g)
+  | n + 1, g => let (v, g') := g.next; let (vs, g'') := drawN n g'; (v :: vs, g'')
+
+/-- the `n` values drawn through `get_rng(arg)` when the process-global generator is `glob`,
+    the global generator afterwards and -- for a shared instance -- the caller's generator
+    afterwards; `none` = `TypeError` -/
+def drawsVia (mk : Nat → Nat → Nat) (arg : SeedArg) (glob : Gen) (n : Nat) :
+    Option (List Nat × Gen × Option Gen) :=
+  match getRng mk arg with
+  | .global => let (vs, g') := drawN n glob; some (vs, g', none)
+  | .fresh g => some ((drawN n g).1, glob, none)
+  | .shared g => let (vs, g') := drawN n g; some (vs, glob, some g')
+  | .typeError => none
+
+/-- the argument is an integer seed or a generator instance: what the property calls "a seed" -/
+def SeedArg.seeded : SeedArg → Bool
+  | .int _ => true
+  | .inst _ => true
+  | _ => false
+
+end Cotengra.GetRng
 
 /-!
 ## hidden mutable state shared between an object and its copies
